@@ -23,7 +23,11 @@ def linear_reference(sp, grid):
     aug[:n, :n] = A
     aug[:n, n] = b
     x0 = np.array([sp["x0"][s] for s in names] + [1.0])
-    return np.array([(scipy.linalg.expm(aug * t) @ x0)[:n] for t in grid])
+    # 30-digit matrix exponential (the systems are small); scipy.linalg.expm is not relied upon - see vf/cme.py
+    import mpmath
+    with mpmath.workdps(30):
+        augm, x0m = mpmath.matrix(aug.tolist()), mpmath.matrix([float(v) for v in x0])
+        return np.array([[float(v) for v in (mpmath.expm(augm * float(t)) * x0m)][:n] for t in grid])
 
 
 def ivp_reference(sp, grid, max_step=np.inf):
